@@ -1369,7 +1369,8 @@ class Observe:
 @op("refused_link")
 class RefusedLink:
     CASES = ("wrong_kind", "foreign", "foreign_same_name", "not_entity", "role_foreign", "role_foreign_same_name",
-             "feature_foreign", "feature_foreign_same_name")
+             "feature_foreign", "feature_foreign_same_name", "create_mtag_foreign_positions",
+             "create_mtag_foreign_extents", "create_feature_foreign")
 
     def gen(self, run, rng):
         if not run.enum("block"):
@@ -1386,6 +1387,8 @@ class RefusedLink:
     def do(self, run, o):
         case = o["case"]
         mf = run.fstate().model
+        if case.startswith("create_"):
+            return self._create(run, o, mf)
         if case.startswith("role") or case.startswith("feature"):
             return self._role(run, o, mf)
         owner = run.pick(o["okind"], o["o"])
@@ -1451,6 +1454,41 @@ class RefusedLink:
         d = K.deep_diff(before, after)
         if d is not None:
             run.violation("refused_changed_list", "refused_link_" + attr, case, "list changed: %s -> %s" % (d[1], d[2]))
+        run.stats["refused_link:" + case] += 1
+        return res(REFUSED)
+
+    def _create(self, run, o, mf):
+        """creating calls that take a link target: an array of another block must be refused and
+        nothing may be created."""
+        case = o["case"]
+        blocks = [b for b in mf.blocks if b.data_arrays]
+        if len(mf.blocks) < 2 or not blocks:
+            return res(NOOP)
+        blk = mf.blocks[o["o"] % len(mf.blocks)]
+        foreign = [a for b in mf.blocks if b is not blk for a in b.data_arrays]
+        if not foreign:
+            return res(NOOP)
+        fa = run.R(foreign[o["t"] % len(foreign)], 0)
+        bh = run.R(blk, o.get("via", 0))
+        before = K.walk_block(bh)
+        name = "refused-new"
+        if case == "create_feature_foreign":
+            ts = blk.tags + blk.multi_tags
+            if not ts:
+                return res(NOOP)
+            th = run.R(ts[o["list"] % len(ts)], 0)
+            r = run.call(lambda: th.create_feature(fa, nixio.LinkType.Untagged))
+        elif case == "create_mtag_foreign_positions":
+            r = run.call(lambda: bh.create_multi_tag(name, "t", fa))
+        else:
+            if not blk.data_arrays:
+                return res(NOOP)
+            ph = run.R(blk.data_arrays[0], 0)
+            r = run.call(lambda: bh.create_multi_tag(name, "t", ph, fa))
+        run.expect_refused(r, "refused_link_" + case, case)
+        d = K.deep_diff(before, K.walk_block(run.R(blk, 0)))
+        if d is not None:
+            run.violation("refused_changed_list", "refused_link_" + case, case, "block changed: %s -> %s at %s" % (d[1], d[2], d[0]))
         run.stats["refused_link:" + case] += 1
         return res(REFUSED)
 
